@@ -46,19 +46,23 @@ impl EncryptedSecretParams {
     }
 
     pub fn checksum(&self) -> Vec<u8> {
-        match self.s2k_params {
+        let checksum_len = match self.s2k_params {
             S2kParams::Unprotected => unreachable!(),
             S2kParams::LegacyCfb { .. }
             | S2kParams::Aead { .. }
             | S2kParams::MalleableCfb { .. } => {
                 // 2 octets
-                self.data[self.data.len() - 2..].to_vec()
+                2
             }
             S2kParams::Cfb { .. } => {
                 // 20 octets SHA1
-                self.data[self.data.len() - 20..].to_vec()
+                20
             }
-        }
+        };
+
+        // The parser accepts encrypted data of any length, including data that is too short to
+        // contain the checksum: return what is there instead of slicing out of bounds.
+        self.data[self.data.len().saturating_sub(checksum_len)..].to_vec()
     }
 
     pub fn unlock(
